@@ -9,16 +9,16 @@ P = {
  "C01": ("exploration", "property-based testing (proptest): generated configurations x entry sets, round-trip oracle against the inserted list",
          "Every generated (codec, level, block size, interval, index levels) x entry set is written and read back; count, codec, version, forward scan, backward scan, first and last are compared with the inserted list. Sampled, not exhaustive: a round trip over an unbounded input space can only be explored.",
          "Trusted: proptest, the five compression crates, std::io::Cursor. Compression levels are generated inside each codec's documented range; zstd levels above 12 only with small files.", "5 C01"),
- "C02": ("exploration", "property-based testing (proptest) with per-file exhaustive probe alphabet; oracle = ceiling/floor/exact of a sorted-vector reference model",
+ "C02": ("exploration", "property-based testing (proptest) with per-file exhaustive probe alphabet + bounded-exhaustive small-scope enumeration (every key set over a tiny alphabet x every probe); oracle = ceiling/floor/exact of a sorted-vector reference model",
          "For files up to 150 entries every key-order equivalence class of probes (each key, each gap, before-first, after-last) is sought with GE/LE/EQ on a fresh and on a reset cursor and compared with the model; larger files use 300 sampled classes. The files themselves are sampled.",
          "Trusted: the reference model (partition_point on a sorted Vec). Probe classes are complete with respect to byte-string order, which is all the code compares.", "5 C02"),
  "C03": ("exploration", "stateful / model-based testing: exhaustive breadth-first exploration of reachable cursor states per generated file + random operation histories, judged by a position-machine model",
          "(a) For each generated small deep file all reachable (cursor fingerprint, model position) states x all operations of a complete alphabet are executed and compared with the model (BFS to fixpoint, shortest counterexample histories); clone independence is checked on every transition. (b) 200-operation run-biased histories on larger files; (c) the same on version-1 encodings. Thorough adds a libFuzzer campaign (fuzz_cursor) with the same oracle in the target. Exhaustive per explored file only.",
          "Needs hook H3 (read-only fingerprint) for (a); (b) is hook-free. Relative moves after a None are executed but not judged, as the property leaves them unspecified.", "5 C03, 6.1"),
- "C04": ("exploration", "property-based testing (proptest): generated files x bound pairs, oracle = filter over the reference model (both directions)",
+ "C04": ("exploration", "property-based testing (proptest): generated files x bound pairs + bounded-exhaustive small-scope enumeration (every key set over {00,ff} keys up to 2 bytes x every pair of bounds over strings up to 3 bytes, 3 layouts); oracle = filter over the reference model (both directions)",
          "Forward and reverse range iterators are compared with a model filter for all 9 bound-kind pairs over independent probes, with dedicated generators for equal, inverted, adjacent, stored, absent and out-of-span bounds.",
          "Trusted: the model filter. Iteration is compared up to the iterator's first None, as the property states.", "5 C04"),
- "C05": ("exploration", "property-based testing (proptest): generated files x prefixes, oracle = starts_with filter over the reference model (both directions)",
+ "C05": ("exploration", "property-based testing (proptest): generated files x prefixes + bounded-exhaustive small-scope enumeration (every key set over a tiny alphabet x every prefix); oracle = starts_with filter over the reference model (both directions)",
          "Forward and reverse prefix iterators are compared with a starts_with filter; generators force empty, all-FF, FF-terminated prefixes and prefixes whose successor string is itself a stored key.",
          "Trusted: the model filter; key generators concentrate on a five-letter alphabet {00,01,7f,fe,ff} to make prefix relations dense.", "5 C05"),
  "C06": ("exploration", "property-based testing (proptest): generated key universes x overlapping sources x merge functions with a call log; oracle = union model, exactly-once merge calls in source order",
@@ -57,7 +57,7 @@ P = {
  "C17": ("exploration", "property-based testing (proptest) under a checking global allocator (guard bands, layout table, double-free, minimal alignment, leak over repeated runs) with overflow checks and debug assertions; thorough adds libFuzzer+ASan and Miri",
          "Insert-size sequences are aimed by a simulation of the buffer arithmetic at exact fits, 1..15 bytes left, 1..5 doublings and over-budget entries; every alloc/dealloc of the run is checked for layout equality, band integrity, double free, zero-size requests; reader paths (including a clone read after its original was dropped) run under the same allocator; content is checked by C07's oracle; a crash of the checking process is attributed to the case in flight and replayed in isolation.",
          "Dynamic detection on executed paths only: absence of UB is not established. ASan does not see layout mismatches (the checking allocator does); Miri cannot run zstd.", "5 C17, 4.5"),
- "C18": ("exploration", "property-based testing (proptest): perturbed insert sequences under catch_unwind; oracle = (panic only on a non-ascending prefix) or (every block sorted per the independent decoder)",
+ "C18": ("exploration", "property-based testing (proptest): perturbed insert sequences under catch_unwind + bounded-exhaustive enumeration of every insert sequence of length <= 5 (thorough 7) over five keys incl. the empty key, 3 layouts; oracle = (panic only on a non-ascending prefix) or (every block sorted per the independent decoder)",
          "Sorted lists are perturbed (swap, duplicate, equal keys, reversed runs, and a non-increasing key placed right after a block emission); either the writer panics at or after the first out-of-order insert, or the independent decoder finds every data and index block strictly ascending.",
          "A panic before the first out-of-order insert, or on sorted input, is reported as a violation too.", "5 C18"),
 }
